@@ -144,6 +144,26 @@ class TranslatorC(Translator):
             # BN ptr, BN mem
             return "MEM_LOOKUP_BN_BN(jitcpu, %d, %s)" % (expr.size, new_ptr)
 
+    def _bn_associative(self, expr):
+        """Translate an associative operation on bignums"""
+        op_to_bn_func = {
+            "+": "add",
+            "*": "mul",
+            "|": "or",
+            "^": "xor",
+            "&": "and",
+        }
+        args = list(expr.args)
+        out = self.from_expr(args.pop())
+        while args:
+            out = 'bignum_mask(bignum_%s(%s, %s), %d)' % (
+                op_to_bn_func[expr.op],
+                out,
+                self.from_expr(args.pop()),
+                expr.size
+            )
+        return out
+
     def from_ExprOp(self, expr):
         if len(expr.args) == 1:
             if expr.op == 'parity':
@@ -314,22 +334,7 @@ class TranslatorC(Translator):
                     out = (" %s " % expr.op).join(args)
                     out = "((%s)&%s)" % (out, self._size2mask(expr.size))
                 else:
-                    op_to_bn_func = {
-                    "+": "add",
-                    "*": "mul",
-                    "|": "or",
-                    "^": "xor",
-                    "&": "and",
-                    }
-                    args = list(expr.args)
-                    out = self.from_expr(args.pop())
-                    while args:
-                        out = 'bignum_mask(bignum_%s(%s, %s), %d)' % (
-                            op_to_bn_func[expr.op],
-                            out,
-                            self.from_expr(args.pop()),
-                            expr.size
-                    )
+                    out = self._bn_associative(expr)
                 return out
 
             elif expr.op in ['-']:
@@ -497,6 +502,8 @@ class TranslatorC(Translator):
                 raise NotImplementedError('Unknown op: %r' % expr.op)
 
         elif len(expr.args) >= 3 and is_associative(expr):  # ?????
+            if expr.size > self.NATIVE_INT_MAX_SIZE:
+                return self._bn_associative(expr)
             oper = ['(%s&%s)' % (
                 self.from_expr(arg),
                 self._size2mask(arg.size),
